@@ -1,2 +1,99 @@
-(* C09 placeholder *)
-From MsiModel Require Import Base.
+(* C09 -- No input file can make the library panic.
+   Over the stream-level model: for EVERY container (any streams with any bytes < 256) the readers never return Panic:
+   the string pool reader, the table reader, SELECT / JOIN execution for any query tree in both profiles; on a state
+   satisfying the package invariant DELETE never panics and drop_table either fails on an argument check or succeeds.
+   The unwrap() calls of Package::open, the panics of decref and the debug assertion of incref are generated flags
+   (OPEN_UNWRAPS_CATALOG_CELLS, POOL_DECREF_PANICS, POOL_INCREF_ASSERTS_EMPTY): all false on this tree (fixes c2fee45,
+   b3803e7), pinned by C09_failure_flags.
+   Partial: cfb's parser (bytes -> container), hangs and memory exhaustion are outside the model; they are covered by the
+   byte-level damage run and the driver's time / address-space limits only.
+   Statements only; every proof is `exact <lemma>` from theories/. *)
+From MsiModel Require Import Base Sexp Value Expr Category Column CodePage Pool Table Container StreamName StreamNameProofs Propset Summary Query Package PoolProofs TableProofs SelectTotal StreamProofs OpenTotal.
+From MsiGen Require Import GenConsts.
+Open Scope N_scope.
+
+(* the source has no unguarded unwrap in open, decref and incref do not panic on foreign pools *)
+Theorem C09_failure_flags :
+  OPEN_UNWRAPS_CATALOG_CELLS = false /\ POOL_DECREF_PANICS = false /\ POOL_INCREF_ASSERTS_EMPTY = false.
+Proof. exact failure_flags_now. Qed.
+
+(* the pool reader: Ok or Err for any bytes *)
+Theorem C09_read_pool_total :
+  forall pb db : bytes, read_pool pb db <> Panic.
+Proof. exact read_pool_total. Qed.
+
+(* the table reader *)
+Theorem C09_read_rows_total :
+  forall (t : table) (b : bytes), read_rows t b <> Panic.
+Proof. exact read_rows_total. Qed.
+
+(* Package::open never panics, for every container *)
+Theorem C09_open_total :
+  forall (prof : profile) (c : container), bytes_ok c -> pkg_open prof c <> Panic.
+Proof. exact open_total. Qed.
+
+(* SELECT on anything that opened: never a panic, for any query *)
+Theorem C09_select_total :
+  forall (prof : profile) (c : container) (p : pool) (ts : tables) (s : sel),
+         bytes_ok c -> exec_select prof c p ts s <> Panic.
+Proof. exact select_total. Qed.
+
+Theorem C09_join_total :
+  forall (prof : profile) (c : container) (p : pool) (ts : tables) (j : join),
+         bytes_ok c -> exec_join prof c p ts j <> Panic.
+Proof. exact join_total. Qed.
+
+Theorem C09_pkg_select_total :
+  forall (prof : profile) (k : pkg) (s : sel), bytes_ok (k_cont k) -> pkg_select prof k s <> Panic.
+Proof. exact pkg_select_total. Qed.
+
+(* stream calls: never a panic, whatever the name *)
+Theorem C09_streams_total :
+  forall (k : pkg) (n : str) (b : bytes),
+         pkg_read_stream k n <> Panic /\ snd (pkg_write_stream k n b) <> Panic /\ snd (pkg_remove_stream k n) <> Panic.
+Proof. exact stream_total. Qed.
+
+(* the property-set reader: Ok or Err for any bytes *)
+Theorem C09_ps_read_total :
+  forall b : bytes, ps_read b <> Panic.
+Proof. exact ps_read_total. Qed.
+
+(* DELETE on any container / pool / table map: never a panic (dangling and unused references tolerated) *)
+Theorem C09_delete_total :
+  forall (prof : profile) (c : container) (p : pool) (ts : tables) (tn : str) (cond : option ast),
+         bytes_ok c -> exec_delete prof c p ts tn cond <> Panic.
+Proof. exact delete_total_any. Qed.
+
+Theorem C09_pkg_delete_total :
+  forall (prof : profile) (k : pkg) (tn : str) (cond : option ast),
+         bytes_ok (k_cont k) -> snd (pkg_delete prof k tn cond) <> Panic.
+Proof. exact pkg_delete_total_any. Qed.
+
+(* INSERT: never a panic below the pool capacity (the capacity panic is known finding pool_full_panic) *)
+Theorem C09_insert_total :
+  forall (prof : profile) (c : container) (p : pool) (ts : tables) (tn : str) (rows : list (list value)),
+         bytes_ok c -> room p (nlen (List.concat rows)) -> exec_insert prof c p ts tn rows <> Panic.
+Proof. exact insert_total_any. Qed.
+
+(* UPDATE: likewise *)
+Theorem C09_update_total :
+  forall (prof : profile) (c : container) (p : pool) (ts : tables) (tn : str) (ups : list (str * value))
+           (cond : option ast) (rows : list (list vref)) (t : table),
+         bytes_ok c ->
+         find_table ts tn = Some t ->
+         load_rows c t = Ok rows -> room p (nlen rows * nlen ups) -> exec_update prof c p ts tn ups cond <> Panic.
+Proof. exact update_total_any. Qed.
+
+Print Assumptions C09_failure_flags.
+Print Assumptions C09_read_pool_total.
+Print Assumptions C09_read_rows_total.
+Print Assumptions C09_open_total.
+Print Assumptions C09_select_total.
+Print Assumptions C09_join_total.
+Print Assumptions C09_pkg_select_total.
+Print Assumptions C09_streams_total.
+Print Assumptions C09_ps_read_total.
+Print Assumptions C09_delete_total.
+Print Assumptions C09_pkg_delete_total.
+Print Assumptions C09_insert_total.
+Print Assumptions C09_update_total.
